@@ -27,6 +27,7 @@ RULE = (
     "Non-trivial = a value with an escape sequence, a modifier chain, or a transformed / correlation "
     "/ filter document."
 )
+RULE += (" A transformation that fails half-way (convert_type num over items of which a later one is not a number) leaves what it changed: the object is then still written faithfully or not at all.")
 RULE += (" " + 'Key-collision documents are drawn in addition: several items that serialise to one dict key (flag-alias spellings re|i / re|ignorecase without a pipeline, many-to-one field mappings with one, explicit |all items); reloaded queries may differ as text only if they are pairwise equivalent by truth table over the decoded leaves.')
 RULE += (" Every standard attribute a document sets must reappear in the dict; log sources carry further keys; items with an empty value list occur.")
 RULE += (" In filter cases the rules the filter was applied to are written out and loaded again one by one (dict and YAML) and must convert like they do inside the collection.")
@@ -193,11 +194,14 @@ def check_case(case: dict) -> Outcome:
     if kind == "transformed":
         pipeline = ProcessingPipeline.from_dict({"transformations": [copy.deepcopy(case["transform"])]})
         out.label("t:" + case["transform"]["type"])
+        failed_half_way = False
         try:
             pipeline.apply(obj)
         except SigmaError:
-            out.skipped = "transformation rejects the rule"
-            return out
+            # the transformation failed on some item: what it changed before stays changed, and the object is then
+            # still written faithfully or not at all
+            out.label("transformation-failed-half-way")
+            failed_half_way = True
         try:
             q_obj = _convert_rule(obj)
         except (SigmaError, NotImplementedError):
@@ -218,7 +222,7 @@ def check_case(case: dict) -> Outcome:
             out.fail(sig(f"C06:transformed:reload-failed:{_tclass(case['transform'])}"), f"{case['transform']}: to_dict() gave {d1.get('detection')!r} which fails to load/convert: {e}")
             return out
         if not _same_meaning(q2, q_obj):
-            out.fail(sig(f"C06:transformed:queries-changed:{_tclass(case['transform'])}"),
+            out.fail(sig(f"C06:transformed:queries-changed:{_tclass(case['transform'])}") + (":after-failed-transformation" if failed_half_way else ""),
                      f"{case['transform']}: transformed object converts to {q_obj}, its to_dict() {d1.get('detection')!r} reloads to {q2}")
         return out
 
@@ -415,8 +419,28 @@ def filter_cases(draw):
     return {"kind": "filter", "doc": doc, "context": CTX_RULES}
 
 
+@st.composite
+def halfway_cases(draw):
+    """A value transformation that changes some items of a detection and fails on a later one."""
+    good = st.sampled_from(["4624", "1", "0x1f", "12", ["1", "2"], "7"])
+    bad = st.sampled_from(["abc", "1 2", "", ["3", "x"], "4*"])
+    sel = {}
+    for k, f in enumerate(draw(st.permutations(["f", "g", "h", "k"]))[:draw(st.integers(2, 4))]):
+        key = f + draw(st.sampled_from(["", "", "|contains", "|all"]))
+        sel[key] = draw(good if k == 0 or draw(st.booleans()) else bad)
+    sel[draw(st.sampled_from(["z", "z|startswith"]))] = draw(bad)
+    det = {"sel": sel, "condition": "sel"}
+    if draw(st.booleans()):
+        det = {"sel": sel, "other": {"f": draw(good), "g": draw(bad)}, "condition": "sel and not other"}
+    doc = {"title": "t", "logsource": {"category": "c"}, "detection": det}
+    tr = draw(st.sampled_from([{"type": "convert_type", "target_type": "num"},
+                               {"type": "convert_type", "target_type": "num", "field_name_conditions": [{"type": "exclude_fields", "fields": ["h"]}]}]))
+    return {"kind": "transformed", "doc": doc, "transform": tr}
+
+
 def run(ctx) -> None:
     n = 500 if ctx.tier == "quick" else 6000
+    ctx.hyp(halfway_cases(), n // 2, salt=5)
     ctx.hyp(rule_cases(), n, salt=1)
     ctx.hyp(corr_cases(), n // 2, salt=2)
     ctx.hyp(filter_cases(), n // 3, salt=3)
